@@ -1,9 +1,12 @@
 (* K-sec channel on the model (property C16).  Mirrors harness/src/chan_sec.rs.
 
    IPPT <scope flags> <primary | -> <H <type> <num> <flags> | -> <canonical>            ->  OK x<ippt>
-   BIB x<key> <scope flags> <ctx flags> <source eid> <params> <bib number> <bib flags> <bundle> T <target numbers..> I <numbers..>
+   BIB x<key> {RESIGN x<old key> <k> <number>*k}.. <scope flags> <ctx flags> <source eid> <params> <bib number> <bib flags> <bundle>
+       T <target numbers..> I <numbers..>
         ->  OK IPPT <k> x.. .. RES <k> {<n> {<id> x<mac>}..}.. ASB x.. BLK x.. BUNDLE x..  |  BUILDERR | NOBLOCK | PANIC
      <params> ::= NOPAR | PAR <sha> <wrapped key> <scope>     <sha>, <scope> ::= - | <id> <value>     <wrapped key> ::= - | <id> x<bytes>
+   Each RESIGN round is an EARLIER compute_hmac on the same IntegrityBlock (key rotation / re-signing): old key and the block
+   numbers whose IPPTs were passed then; the rounds run in the order written, the final compute_hmac (key, I list) last.
    BIB replays the glue of tests/security_tests.rs: security header (INTEGRITY_BLOCK, bib number, bib flags); one IPPT per
    number after `I`, created from the first block of the bundle with that number (NOBLOCK if there is none) with the bundle's
    primary block; IntegrityBlockBuilder (BUILDERR without parameters); compute_hmac key [(number, ippt)..]; to_cbor;
@@ -80,16 +83,32 @@ Fixpoint make_ippts (flags : N) (p : primary) (sh : sec_header) (cs : list canon
 Definition show_result_set (r : list sec_result) : list byte :=
   join (show_N (Nlen r) :: flat_map (fun x => [show_N (fst x); show_bytes (snd x)]) r).
 
-Definition bib_line (key : list byte) (flags ctx_flags : N) (source : eid) (params : option bib_params)
-           (bib_num bib_flags : N) (b : bundle) (targets inums : list N) : list byte :=
+(* the earlier signing rounds: IPPT lists first (any missing block -> None), then compute_hmac round by round on the same block *)
+Fixpoint round_ippts (flags : N) (p : primary) (sh : sec_header) (cs : list canonical) (rounds : list (list byte * list N))
+  : option (list (list byte * list (N * list byte))) :=
+  match rounds with
+  | [] => Some []
+  | (k, nums) :: t => match make_ippts flags p sh cs nums, round_ippts flags p sh cs t with
+                      | Some l, Some r => Some ((k, l) :: r)
+                      | _, _ => None
+                      end
+  end.
+Fixpoint sign_rounds (rounds : list (list byte * list (N * list byte))) (ib : integrity_block) : res integrity_block :=
+  match rounds with
+  | [] => Ok ib
+  | (k, ippts) :: t => do ib' <- compute_hmac k ippts ib; sign_rounds t ib'
+  end.
+
+Definition bib_line (key : list byte) (rounds : list (list byte * list N)) (flags ctx_flags : N) (source : eid)
+           (params : option bib_params) (bib_num bib_flags : N) (b : bundle) (targets inums : list N) : list byte :=
   let sh := mksh INTEGRITY_BLOCK bib_num bib_flags in
-  match make_ippts flags (b_primary b) sh (b_canonicals b) inums with
-  | None => S_ "NOBLOCK"
-  | Some ippts =>
+  match make_ippts flags (b_primary b) sh (b_canonicals b) inums, round_ippts flags (b_primary b) sh (b_canonicals b) rounds with
+  | None, _ | _, None => S_ "NOBLOCK"
+  | Some ippts, Some old_rounds =>
     match ib_build (Some targets) ctx_flags source params with
     | inr _ => S_ "BUILDERR"
     | inl ib0 =>
-      match compute_hmac key ippts ib0 with
+      match bind (sign_rounds old_rounds ib0) (compute_hmac key ippts) with
       | Ok ib =>
         match asb_to_cbor ib with
         | Ok asb =>
@@ -108,12 +127,31 @@ Definition bib_line (key : list byte) (flags ctx_flags : N) (source : eid) (para
     end
   end.
 
+(* <k> numbers *)
+Fixpoint parse_count (k : nat) : P (list N) := fun ts =>
+  match k with
+  | O => Some ([], ts)
+  | S k' => (let* n := pN in let* l := parse_count k' in pret (n :: l)) ts
+  end.
+Fixpoint parse_rounds (fuel : nat) : P (list (list byte * list N)) := fun ts =>
+  match fuel with
+  | O => None
+  | S f =>
+      if peek_is "RESIGN" ts then
+        (let* _ := pTag "RESIGN" in let* k := pBytes in let* n := pN in
+         if n <? 1000 then
+           let* nums := parse_count (N.to_nat n) in let* rest := parse_rounds f in pret ((k, nums) :: rest)
+         else (fun _ => None)) ts
+      else Some ([], ts)
+  end.
+
 Definition run_bib (args : list tok) : list byte :=
-  match (let* key := pBytes in let* flags := pN in let* cf := pN in let* src := parse_eid in let* ps := parse_params in
+  match (let* key := pBytes in let* rounds := parse_rounds (S (length args)) in
+         let* flags := pN in let* cf := pN in let* src := parse_eid in let* ps := parse_params in
          let* bn := pN in let* bf := pN in let* b := parse_bundle in let* _ := pTag "T" in
          let* ts := parse_numbers "I" in let* ns := parse_numbers "" in
-         pret (key, flags, cf, src, ps, bn, bf, b, ts, ns)) args with
-  | Some ((key, flags, cf, src, ps, bn, bf, b, ts, ns), []) =>
-      if flags <? u16_bound then bib_line key flags cf src ps bn bf b ts ns else bad_case
+         pret (key, rounds, flags, cf, src, ps, bn, bf, b, ts, ns)) args with
+  | Some ((key, rounds, flags, cf, src, ps, bn, bf, b, ts, ns), []) =>
+      if flags <? u16_bound then bib_line key rounds flags cf src ps bn bf b ts ns else bad_case
   | _ => bad_case
   end.
